@@ -70,6 +70,23 @@ def extract():
         return [sites, unguarded]
     put("popGuards", guards)
     put("optUsesStdinOnlyInOptExecute", lambda: [len(re.findall(r"stdin\(\)", opt))])
+    # partial-operation inventory (C11/C13): per file, counts of unwrap/expect, unreachable!/panic!, process::exit,
+    # indexing expressions, narrowing/sign casts — compared in Lean with the committed inventory
+    def inventory():
+        files = ["src/main.rs", "src/app/run.rs", "src/app/check.rs", "src/app/debug.rs", "src/app/interpreter.rs", "src/util/io.rs",
+                 "src/util/ext.rs", "src/util/error.rs", "src/util/option.rs", "src/core/execute.rs", "src/core/state.rs",
+                 "src/core/area.rs", "src/core/parse.rs", "src/core/optimize.rs", "src/core/code.rs"]
+        out = []
+        for f in files:
+            t = src(f)
+            t = "\n".join(l for l in t.split("\n") if not l.strip().startswith("//"))
+            t = re.sub(r'"(?:[^"\\]|\\.)*"', '""', t)
+            idx = [m for m in re.findall(r"[A-Za-z_\)\]]\[[^\]\n]+\]", t)]
+            out.append([f, [len(re.findall(r"\.unwrap\(\)|\.expect\(", t)), len(re.findall(r"unreachable!|panic!", t)),
+                            len(re.findall(r"process::exit\(", t)), len(idx),
+                            len(re.findall(r" as (?:u8|u32|u64|i64|usize|isize|u128)\b", t))]])
+        return out
+    put("partialOps", inventory)
     return out, bad
 
 def lean_char(c):
@@ -94,6 +111,7 @@ def render(v):
     L.append("def initStack : List Nat := %s" % v["initStack"])
     L.append("def retHeart : Nat := %d" % v["retHeart"])
     L.append("def exitCodes : List Nat := %s" % v["exitCodes"])
+    L.append("def partialOps : List (String × List Nat) := [%s]" % ", ".join('("%s", %s)' % (f, c) for f, c in v["partialOps"]))
     L.append("def popSites : Nat := %d" % v["popGuards"][0])
     L.append("def popUnguarded : Nat := %d" % v["popGuards"][1])
     L.append("end Ext")
